@@ -60,6 +60,7 @@ TRAIT_CHECK = {
 
 
 def outcome_of(fmt, data, sched):
+    imgdrive.tracing_for((fmt, core.h64(data), repr(sched)))
     v, insp, _f = imgdrive.drive(fmt, data, sched)
     return v[4], v
 
@@ -210,6 +211,22 @@ def sweeps(col):
         fo = {k: (v.decode('latin-1') if isinstance(v, bytes) else v)
               for k, v in fo.items()}
         run('vmdk', dict(footer=True, footer_over=fo), 'vmdk-footer')
+    # descriptor text with a NUL in the middle: what follows the first NUL
+    # is padding, so lines placed there do not count
+    good = ('\n'.join(base) + '\n').encode()
+    ct = b'createType="monolithicSparse"\n'
+    ext = b'RW 20480 SPARSE "disk.vmdk"\n'
+    for raw in (
+            b'# comment \x00 tail\n' + good,
+            good.replace(ct, b'') + b'\x00' + ct,
+            good.replace(ext, b'') + b'\x00' + ext,
+            b'# Disk DescriptorFile\nversion=1\x00\n' + ct + ext,
+            b'ddb.x = "1\x00"\n' + ct + ext,
+            good + b'\x00' + b'RW 1 FLAT "/etc/shadow" 0\n',
+            good):
+        for footer in (False, True):
+            run('vmdk', dict(desc_raw=raw.hex(), footer=footer,
+                             desc_num=2), 'vmdk-nul')
     # header / footer disagreement at large descriptor sizes (beyond the
     # 1 MiB capture clamp): every pair of differing sector counts
     big = (1, 20, 2047, 2048, 2049, 4096, 2 ** 32, 2 ** 64 - 1)
